@@ -230,6 +230,8 @@ struct SubH {
     seen_cur: usize,
     /// the LATEST poll answered Pending (with the current waker) and no wake was seen since
     cur_pending: bool,
+    /// identity of the waker supplied to the latest poll that answered Pending (since the last wake)
+    last_pending_wid: Option<usize>,
     registered: bool, // last poll answered Pending and no wake seen since
 }
 
@@ -276,7 +278,7 @@ fn next_wid() -> usize {
 fn new_subh(s: Subscriber<Val>) -> SubH {
     let cw = Arc::new(CountWaker(AtomicUsize::new(0)));
     let waker = Waker::from(cw.clone());
-    SubH { sub: Some(s), cw, waker, old: vec![], wid: next_wid(), seen: 0, seen_cur: 0, cur_pending: false, registered: false }
+    SubH { sub: Some(s), cw, waker, old: vec![], wid: next_wid(), seen: 0, seen_cur: 0, cur_pending: false, last_pending_wid: None, registered: false }
 }
 
 pub fn run_line(line: &str, out: &mut String) {
@@ -538,10 +540,20 @@ pub fn run_line(line: &str, out: &mut String) {
         let mut wk = vec![];
         let mut stale_waker = false;
         let mut woken_objs: Vec<(usize, usize)> = vec![];
+        let mut latest: Vec<String> = vec![];
         for (k, s) in subs.iter_mut().enumerate() {
             let n = s.total_wakes();
             if n > s.seen {
+                let from = woken_objs.len();
                 s.newly_woken(k, &mut woken_objs);
+                // "wakes the waker supplied to that Pending poll": did the object supplied to the
+                // latest Pending poll fire?  (Which OTHER objects fire as well - earlier wakers of the
+                // same subscriber, once or twice - is left open: implementations that de-duplicate
+                // or replace a subscriber's entry are as good.)
+                match s.last_pending_wid.take() {
+                    Some(w) if woken_objs[from..].contains(&(k, w)) => latest.push(format!("{k}:{w}")),
+                    _ => latest.push(format!("{k}:-")),
+                }
                 wk.push(format!("{}x{}", k, n - s.seen));
                 s.seen = n;
                 // C02: "wakes the waker supplied to that Pending poll" - the latest one
@@ -559,15 +571,9 @@ pub fn run_line(line: &str, out: &mut String) {
             line.push_str(" ok:wake=0");
         }
         if !wk.is_empty() {
-            // which waker OBJECTS were woken (subscriber:waker identity, with multiplicity), as the
-            // model's ObsWaker.wstep predicts
-            woken_objs.sort();
-            // as a set: how often one waker object is woken is not part of the property
-            woken_objs.dedup();
-            line.push_str(&format!(
-                " w{}",
-                woken_objs.iter().map(|(k, w)| format!("{k}:{w}")).collect::<Vec<_>>().join(",")
-            ));
+            // per woken subscriber, the waker object of its latest Pending poll (as the model's
+            // ObsWaker.wstep predicts: the last entry of that subscriber in the woken list)
+            line.push_str(&format!(" w{}", latest.join(",")));
         }
         // C19 read literally, independent of the specification: the counts equal the harness's own
         // inventory of live handles (it holds every clone, subscriber and weak reference itself)
@@ -643,6 +649,9 @@ fn sub_op(name: &str, a: &[u32], subs: &mut Vec<SubH>, turn: usize) -> String {
                 }
             };
             subs[k].cur_pending = r.is_pending();
+            if r.is_pending() {
+                subs[k].last_pending_wid = Some(subs[k].wid);
+            }
             match r {
                 Poll::Ready(Some(v)) => format!("R:{}", show(v)),
                 Poll::Ready(None) => "N".into(),
